@@ -102,8 +102,9 @@ def drive_binary(run, rng, tier):
     sys.setswitchinterval(1e-6)
     try:
         for d in (1, 2, 3):
+            # (batches not longer than the tensor dimension: the threaded einsum then splits along a tensor / contracted index)
             for ba, bb in [((3, 5), (3, 5)), ((3, 1), (1, 5)), ((1, 1), (3, 5)), ((3, 5), (1, 1)), ((6,), (6,)),
-                           ((40, 30), (40, 30))]:
+                           ((40, 30), (40, 30)), ((1, 1), (1, 1)), ((1, 2), (1, 2)), ((2,), (2,)), ((3, 3), (3, 3)), ((2, 1), (1, 2))]:
                 if ba == (40, 30) and d != 3:
                     continue
                 mk = lambda n, b: rng.standard_normal((d,) * n + b)
@@ -257,7 +258,7 @@ def _required():
         req += ["math:dddot[mode=(3, 3),parallel=%s]" % p, "math:cdya_ik[parallel=%s]" % p,
                 "math:cdya_il[parallel=%s]" % p, "math:cdya[parallel=%s]" % p]
     req += ["math:dya[mode=1]", "math:dya[mode=2]", "math:transpose[mode=1]", "math:transpose[mode=2]",
-            "math:majortranspose", "math:cross", "math:eigh", "math:eigh[UPLO=L,triangular-storage]", "math:eigh[UPLO=U,triangular-storage]", "math:eig", "math:eigvals", "math:eigvals[shear=True]", "math:strain-of-field[n=0]", "math:strain-of-field[n=1]", "math:eigvalsh[shear=False]",
+            "math:majortranspose", "math:cross", "math:eigh", "math:eigh[UPLO=L,triangular-storage]", "math:eigh[UPLO=U,triangular-storage]", "math:eig", "math:eig:complete", "math:eigvals", "math:eigvals[shear=True]", "math:strain-of-field[n=0]", "math:strain-of-field[n=1]", "math:eigvalsh[shear=False]",
             "math:eigvalsh[shear=True]", "math:inplane", "math:identity", "math:reshape", "math:ravel",
             "math:solve_nd[n=1]", "math:solve_nd[n=2]", "math:rotation_matrix[dim=2,axis=-]",
             "math:rotation_matrix[dim=3,axis=0]", "math:rotation_matrix[dim=3,axis=1]",
